@@ -52,9 +52,17 @@ Section Sampler.
     if w_stop w then w else
     match t with
     | TInit a c =>
+        (* adapter.initialize may call user model functions (initial step size search): one callback call when adapters
+           are active; an interrupt raised there is handled like one raised in an iteration (fix "handle keyboard interrupt
+           raised while initialising adapters"): the chain returns its unchanged state *)
+        let calls := match a with NoAd => false | _ => true end in
+        if calls && raises (w_k w) then
+          {| w_chain := w_chain w; w_ast := w_ast w; w_par := w_par w; w_tr := w_tr w; w_st := w_st w; w_hist := w_hist w;
+             w_k := S (w_k w); w_stop := true; w_ran := w_ran w ++ [c]; w_parlog := w_parlog w |}
+        else
         let '(ast, p) := match a with NoAd => (ast0, w_par w) | _ => init_ad a (w_par w) (fst (w_chain w c)) end in
         {| w_chain := w_chain w; w_ast := upd (w_ast w) c ast; w_par := p; w_tr := w_tr w; w_st := w_st w; w_hist := w_hist w;
-           w_k := w_k w; w_stop := false; w_ran := w_ran w ++ [c]; w_parlog := w_parlog w |}
+           w_k := if calls then S (w_k w) else w_k w; w_stop := false; w_ran := w_ran w ++ [c]; w_parlog := w_parlog w |}
     | TIter a c row traced stats =>
         if raises (w_k w) then    (* KeyboardInterrupt inside transition.sample: nothing of this iteration happened *)
           {| w_chain := w_chain w; w_ast := w_ast w; w_par := w_par w; w_tr := w_tr w; w_st := w_st w; w_hist := w_hist w;
